@@ -368,5 +368,99 @@ ASSUMED = ["IR semantics as stated in the module docstring (from the statements 
            "the emitted text is executed with proxy-aware builtins (int, round, isinstance, ...), struct and math replaced by their models (T4)",
            "struct formats without a byte-order prefix use the host order (little-endian here)",
            "finite doubles modelled as exact reals (pyvc.symfloat)"]
-NOT_COVERED = ["control-flow emission (block dispatch, phi filling at block exits), calls, function pointers, alloca / free, the heap / stack memory model beyond one load/store pair",
-               "float arithmetic, float <-> float casts, pointer casts"]
+NOT_COVERED = ["control-flow emission (block dispatch, phi filling at block exits), calls, function pointers, alloca / free, the heap / stack memory model: only through the bounded stand-in "
+               "(IR modules from the Python-subset and WebAssembly corpora), no contract", "pointer casts"]
+
+
+# ---- bounded stand-in for control-flow emission (never counted as proved) ----------------------------------------------
+# IR modules with branches, loops, phis, calls, memory and tables are obtained from two front ends (the Python
+# subset corpus of contracts/c36.py and the WebAssembly programs of contracts/wasmprogs.py), translated by
+# ir_to_python, executed, and compared with the front ends' independent references (CPython / hand-written Python).
+# The front ends are in the trusted base of this stand-in (they are the subject of C36 and C22).
+def bounded(tier_name, rnd):
+    import random
+    from contracts import c36 as P, wasmprogs as WP
+    evals, vio = 0, []
+    rng = range(-2, 5)
+    ints = [(a, b) for a in rng for b in rng]
+    floats = [(a * 0.5, b * 0.25) for a in range(-2, 3) for b in range(-2, 3)]
+    for name, src in P.PROGRAMS:
+        n, bad = P._run_program(name, src, floats if "float" in src else ints)
+        evals += n
+        vio += [dict(b, input=dict(b["input"], kind="python")) for b in bad[:1]]
+    # the same fixed functions after ppci's own mem2reg / optimisation: the IR then carries phi nodes (loop-carried
+    # values, swaps), which exercises the parallel phi assignment at block exits
+    for name, src in P.PROGRAMS:
+        n, bad = _run_optimized(name, src, floats if "float" in src else ints)
+        evals += n
+        vio += bad[:1]
+    r = random.Random(20260925)
+    ngen = 60 if tier_name == "quick" else 600
+    gargs = [(a, b) for a in (-3, 0, 2, 4) for b in (-2, 1, 3)]
+    for i in range(ngen):
+        src = P.gen_function(r)
+        n, judged, bad = P._run_generated("gen%d" % i, src, gargs)
+        evals += n
+        if len(vio) < 8:
+            vio += [dict(b, input=dict(b["input"], kind="python")) for b in bad]
+    ncalls = 0
+    for pr in WP.PROGRAMS:
+        try:
+            bad = WP.run_program(pr)
+        except Exception as ex:
+            bad = [(0, 0, ("<instantiate>", ()), "instantiates", "raised %s: %s" % (type(ex).__name__, str(ex)[:100]))]
+        ncalls += 2 * len(pr[2])
+        for (rnd_i, ci, call, want, got) in bad[:1]:
+            vio.append({"name": "wasm program %s through ir_to_python, instantiation %d, call %d %s%r == reference" % (pr[0], rnd_i + 1, ci, call[0], tuple(call[1])),
+                        "input": {"kind": "wasm", "program": pr[0], "wat": pr[1]}, "expected": repr(want), "observed": repr(got)})
+    evals += ncalls
+    return {"evaluations": evals, "distinct_nontrivial": evals, "exhaustive": False,
+            "rule": "IR modules from two front ends executed through ir_to_python: the %d fixed Python-subset functions x an argument grid, %d generated Python-subset functions x 12 argument "
+                    "pairs (loops, nested branches, break / continue: block dispatch and phi filling), and %d WebAssembly programs (calls, recursion, call_indirect, memory, globals, br_table) "
+                    "driven through fixed call sequences; results compared with CPython / hand-written references; each (module, arguments) pair is distinct"
+                    % (len(P.PROGRAMS), ngen, len(WP.PROGRAMS)),
+            "programs": len(P.PROGRAMS) + ngen + len(WP.PROGRAMS),
+            "samples": [{"kind": "python", "program": P.PROGRAMS[2][0], "source": P.PROGRAMS[2][1], "args": [1, 3]}, {"kind": "wasm", "program": WP.PROGRAMS[1][0], "calls": [list(c) for c in WP.PROGRAMS[1][2][:3]]}],
+            "bound": "IR produced by python_to_ir and wasm_to_ir from the two corpora; %s tier" % tier_name, "violations": vio}
+
+
+def _run_optimized(name, src, args_list):
+    from ppci.lang.python import python_to_ir, ir_to_python
+    from ppci.api import optimize
+    ns_ref = {}
+    exec(src, ns_ref)
+    m = python_to_ir(io.StringIO(src))
+    optimize(m, level="2")
+    nphi = sum(1 for f in m.functions for b in f for i in b if type(i).__name__ == "Phi")
+    out = io.StringIO()
+    ir_to_python([m], out)
+    ns = {}
+    exec(out.getvalue(), ns)
+    bad, n = [], 0
+    for args in args_list:
+        n += 1
+        want = ns_ref["f"](*args)
+        try:
+            got = ns["f"](*args)
+        except Exception as e:
+            got = "raised %r" % (e,)
+        if got != want:
+            bad.append({"name": "optimised (%d phis) %s%r through ir_to_python == CPython" % (nphi, name, tuple(args)),
+                        "input": {"kind": "python-optimized", "program": name, "source": src, "args": list(args)}, "expected": repr(want), "observed": repr(got)})
+            break
+    return n, bad
+
+
+def replay_bounded(inp):
+    from contracts import c36 as P, wasmprogs as WP
+    if inp.get("kind") == "python-optimized":
+        n, bad = _run_optimized(inp["program"], inp["source"], [tuple(inp["args"])])
+        return (False, bad[0]) if bad else (True, {"program": inp["program"], "args": inp["args"], "observed": "equals CPython"})
+    if inp.get("kind") == "wasm":
+        pr = [q for q in WP.PROGRAMS if q[0] == inp["program"]][0]
+        bad = WP.run_program(pr)
+        if bad:
+            rnd_i, ci, call, want, got = bad[0]
+            return False, {"program": pr[0], "call": "%s%r" % (call[0], tuple(call[1])), "expected": repr(want), "observed": repr(got)}
+        return True, {"program": pr[0], "observed": "every call equals the reference"}
+    return P.replay_bounded({k: v for k, v in inp.items() if k != "kind"})
